@@ -209,6 +209,10 @@ def answer (nodes : List NType) (n : Nat) (kind : String) (args : List String) :
           ";".intercalate ((atomicSets nodes n (cs.filterMap String.toNat?) (parseIntsD As) (cross == "1") []).map fmtInts)
       | [] => "bad-args"
   | "d4load" => d4loadAnswer args
+  | "hasparents" =>
+      -- every node except the root is a child of a later node (hypothesis `MS.HasParents` of the scratch-state theorems)
+      toString ((List.range (nodes.length - 1)).all fun j =>
+        (List.range nodes.length).any fun i => j < i && (children (nodes.getD i .tru)).contains j)
   | "twise" =>
       -- `q twise t | cfg ; cfg ; ..` : the verified checker on a sample returned by the real code
       (match args with
